@@ -606,7 +606,8 @@ def run_race_seed(binary, profile, tier, seed, tmp):
     env = goenv()
     outf = os.path.join(tmp, 'r%d.jsonl' % seed)
     env.update(SIM_PROFILE=profile, SIM_TIER=tier, SIM_SEED0=str(seed), SIM_COUNT='1', SIM_MODE='L1race', SIM_SAMPLE_EVERY='1',
-               GORACE='halt_on_error=0', GOMAXPROCS='4', SIM_OUT=outf)
+               GORACE='halt_on_error=0', GOMAXPROCS='4', SIM_OUT=outf, SIM_RUN_WATCHDOG_S='45',
+               SIM_STALL_SITES=os.path.join(os.path.dirname(binary), 'inst.L1race', 'stallsites.txt'))
     try:
         p = subprocess.run([binary, '-test.run', '^TestSim$', '-test.timeout', '10m', '-test.cpu', '4'], env=env, stdout=subprocess.PIPE, stderr=subprocess.STDOUT, text=True, timeout=180, cwd=tmp)
     except subprocess.TimeoutExpired:
